@@ -187,13 +187,13 @@ def _validate(headers, key: str, subprotocols) -> tuple:
     result = headers.get("sec-websocket-accept", None)
     if not result:
         return False, None
-    result = result.lower()
 
     if isinstance(result, str):
         result = result.encode("utf-8")
 
     value = f"{key}258EAFA5-E914-47DA-95CA-C5AB0DC85B11".encode("utf-8")
-    hashed = base64encode(hashlib.sha1(value).digest()).strip().lower()
+    # base64 is case-sensitive: the accept value has to match exactly
+    hashed = base64encode(hashlib.sha1(value).digest()).strip()
 
     if hmac.compare_digest(hashed, result):
         return True, subproto
